@@ -222,9 +222,9 @@ theorem C08_recv_error_closes (p : ProxyS) (m : MuxL) (e : ESock) (io : CbIo) (p
     unfold ProxyS.cleanup
     by_cases hf : q.sockFirst = true
     · simp only [hf, ↓reduceIte]
-      apply hfin; rw [dropMux_sw]; exact hds q hx
+      apply hfin; rw [(preSelect_fields _ _).1, dropMux_sw]; exact hds q hx
     · simp only [hf, Bool.false_eq_true, ↓reduceIte]
-      apply hfin; apply hds; rw [dropMux_sw]; exact hx
+      apply hfin; rw [(preSelect_fields _ _).1]; apply hds; rw [dropMux_sw]; exact hx
   cases sf
   case true =>
     simp only [↓reduceIte] at h
